@@ -297,7 +297,7 @@ def nud__child_path(self: XPathToken) -> XPathToken:
 @method('//')
 @method('/')
 def led__child_or_descendant_path(self: XPathToken, left: XPathToken) -> XPathToken:
-    if left.symbol in ('/', '//', ':', '[', '$'):
+    if left.symbol in ('/', '//', ':', '[', '$', '('):
         pass
     elif left.label not in self.parser.PATH_STEP_LABELS and \
             left.symbol not in self.parser.PATH_STEP_SYMBOLS:
